@@ -21,6 +21,7 @@ import (
 type event struct {
 	Seq    uint64 `json:"seq"`
 	Accept bool   `json:"accept"` // false: authentication failed, accept() is not invoked
+	Defer  int    `json:"defer,omitempty"` // C04 only: accept() is invoked after this many later checks (pipelined authentication)
 	Why    string `json:"why,omitempty"`
 }
 
@@ -187,8 +188,16 @@ func gen(r *harn.Rng, tier string) interface{} {
 		}
 		return dl[i].ord < dl[j].ord
 	})
+	deferP := 0.0
+	if prop == "C04" && r.Bool(0.3) {
+		deferP = []float64{0.05, 0.3}[r.Intn(2)]
+	}
 	for _, d := range dl {
-		sc.Events = append(sc.Events, d.ev)
+		ev := d.ev
+		if deferP > 0 && ev.Accept && r.Bool(deferP) {
+			ev.Defer = r.Pick(1, 1, 2, 3)
+		}
+		sc.Events = append(sc.Events, ev)
 	}
 	return sc
 }
@@ -308,7 +317,32 @@ func run(env *simrt.Env, sci interface{}) {
 	m := &model{wrap: sc.Wrap, window: uint64(sc.Window), max: sc.MaxSeq, accepted: map[[2]uint64]bool{}}
 	exact := prop == "C05"
 	desc := fmt.Sprintf("%s(window=%d, max=%d)", map[bool]string{false: "New", true: "WithWrap"}[sc.Wrap], sc.Window, sc.MaxSeq)
+	type pendingT struct {
+		fn  func() bool
+		seq uint64
+		due int
+	}
+	var pending []pendingT
+	firePending := func(i int, all bool) bool {
+		rest := pending[:0]
+		for _, p := range pending {
+			if !all && p.due > i {
+				rest = append(rest, p)
+				continue
+			}
+			p.fn()
+			env.Fault("deferred-accept")
+			if _, free := m.accept(p.seq); free {
+				return false
+			}
+		}
+		pending = rest
+		return true
+	}
 	for i, ev := range sc.Events {
+		if !firePending(i, false) {
+			return
+		}
 		want, wasAcc := m.check(ev.Seq)
 		acceptFn, ok := d.Check(ev.Seq)
 		if ok && ev.Seq > sc.MaxSeq {
@@ -357,6 +391,10 @@ func run(env *simrt.Env, sci interface{}) {
 			// C04 only tracks what was accepted; the detector accepted a number the
 			// window rule would refuse (C05's concern). Record it as accepted and go on.
 		}
+		if ev.Defer > 0 && !exact {
+			pending = append(pending, pendingT{fn: acceptFn, seq: ev.Seq, due: i + ev.Defer + 1})
+			continue
+		}
 		gotLatest := acceptFn()
 		wantLatest, free := m.accept(ev.Seq)
 		if free {
@@ -393,6 +431,12 @@ func shrinkSc(sci interface{}) []interface{} {
 			c := *sc
 			c.Events = append([]event(nil), sc.Events...)
 			c.Events[i].Accept = true
+			out = append(out, &c)
+		}
+		if e.Defer > 0 {
+			c := *sc
+			c.Events = append([]event(nil), sc.Events...)
+			c.Events[i].Defer = 0
 			out = append(out, &c)
 		}
 	}
